@@ -277,7 +277,7 @@ class Impl:
 
 
 # ---------------------------------------------------------------------- generation
-def valid_actions(im, r, nmax=6, allow_consumer_during_join=True):
+def valid_actions(im, r, nmax=6, allow_consumer_during_join=True, allow_consumer=True):
     acts = []
     running = [i for i, s in im.status.items() if s == 'run']
     canc = [i for i, s in im.status.items() if s == 'canc']
@@ -302,12 +302,14 @@ def valid_actions(im, r, nmax=6, allow_consumer_during_join=True):
         acts.append(('J',))
         acts.append(('J',))
         acts.append(('E', r.choice([False, True, 'c'])))
-        acts.append(('N', len(im.consumers)))
+        if allow_consumer:
+            acts.append(('N', len(im.consumers)))
     elif js in ('active', 'cancelled'):
         acts.append(('K',))
-        if allow_consumer_during_join and len(im.consumers) < 3 and r.random() < 0.3:
+        if allow_consumer and allow_consumer_during_join and len(im.consumers) < 3 \
+                and r.random() < 0.3:
             acts.append(('N', len(im.consumers)))
-    elif js == 'exited' and len(im.consumers) < 4:
+    elif js == 'exited' and len(im.consumers) < 4 and allow_consumer:
         acts.append(('N', len(im.consumers)))
     return acts
 
@@ -350,10 +352,40 @@ def rec_key(rec):
     return (rec['obs'], rec['joined'], rec['completed'], rec['done'])
 
 
+def drain(im, r, actions, recs, budget=24):
+    """Append ordinary environment actions until every member task has finished (or the budget
+    is used up): running members return / raise / are cancelled from outside, members reacting
+    to a cancellation are released.  The actions are part of the trace (the model replays
+    them); used so that a good share of the generated traces end with every member done - the
+    situation in which `join()` must have returned."""
+    n = 0
+    if im.join_state is None and r.random() < 0.8:
+        a = r.choice([('J',), ('J',), ('E', False), ('E', True)])
+        actions.append(a)
+        recs.append(im.act(a))
+        n += 1
+    while n < budget:
+        todo = [(i, s) for i, s in im.status.items() if s != 'done']
+        if not todo:
+            break
+        i, s = r.choice(todo)
+        if s == 'run':
+            a = r.choice([('F', i, r.choice(['n', 'v', 'v', 'e'])), ('F', i, 'v'), ('X', i)])
+        else:
+            a = ('Y', i)
+        actions.append(a)
+        recs.append(im.act(a))
+        n += 1
+    return n
+
+
 def run_trace(repo, policy, actions_or_rng, max_steps=14, nmax=6, retain=False,
-              consumer_during_join=True, micro_rng=None):
+              consumer_during_join=True, micro_rng=None, drain_rng=None, consumers=True,
+              min_spawns=0):
     """Either replay a fixed action list or generate one with `rng`.  Returns
-    (actions, records, impl snapshot for the oracles)."""
+    (actions, records, impl snapshot for the oracles).  `drain_rng`: after the random part, go
+    on (with ordinary actions) until every member has finished; `consumers=False`: no task other
+    than the joiner ever calls next_done(); `min_spawns`: the trace starts with that many spawns."""
     im = Impl(repo, policy, retain=retain)
     try:
         actions, recs = [], []
@@ -364,12 +396,16 @@ def run_trace(repo, policy, actions_or_rng, max_steps=14, nmax=6, retain=False,
         else:
             r = actions_or_rng
             for _ in range(r.randint(3, max_steps)):
-                acts = valid_actions(im, r, nmax, consumer_during_join)
+                acts = valid_actions(im, r, nmax, consumer_during_join, consumers)
+                if len(actions) < min_spawns:
+                    acts = [a for a in acts if a[0] == 'S'] or acts
                 if not acts:
                     break
                 a = r.choice(acts)
                 actions.append(a)
                 recs.append(im.act(a))
+            if drain_rng is not None:
+                drain(im, drain_rng, actions, recs)
         snap = {
             'status': dict(im.status), 'outcome': dict(im.outcome), 'daemon': dict(im.daemon),
             'log': list(im.log), 'yielded': list(im.yielded), 'ext': set(im.ext_cancelled),
@@ -377,6 +413,7 @@ def run_trace(repo, policy, actions_or_rng, max_steps=14, nmax=6, retain=False,
             'joiner_done': im.joiner.done() if im.joiner else None,
             'waits_in': im.joiner_waits_in(),
             'pending': sorted(i for i in (im.ident(t) for t in im.g._pending) if i is not None),
+            'drained': drain_rng is not None and not isinstance(actions_or_rng, list),
         }
         # micro-step probe (oracle only, not part of the model trace): let every unfinished member
         # finish, then advance the loop ONE iteration at a time and try to add a task from outside
